@@ -158,6 +158,7 @@ def _read(self, op):
             except Exception as e2: self.c('rollback_after_isolation_error_raised.' + type(e2).__name__)
             self._reset_after_rollback()
             return 'raised_session_lost'
+        self.failed_flush_continued = True    # the read's implicit flush may have failed midway; the session goes on
         return 'raised_unexpected'
     return 'read_ok'
 
